@@ -575,6 +575,12 @@ fn family_lit(out: &mut Vec<Case>) {
         obj(vec![named("a", lit("1")), named("a", lit("2"))]), obj(vec![Field::Spread(cond(a.clone(), o.clone(), p.clone()))]), obj(vec![named("k", arr(vec![sp(l.clone())]))]),
         mem(obj(vec![named("x", a.clone())]), "x"), obj(vec![named("$a", a.clone()), named("_b", b.clone())]), obj(vec![Field::Spread(arr(vec![v(a.clone()), v(b.clone())]))]),
         obj(vec![named("__proto__", o.clone())]), obj(vec![named("constructor", a.clone()), named("toString", b.clone())]),
+        // constant fields between, before and after data-dependent ones (the update-path companion object leaves constants out)
+        obj(vec![named("a", a.clone()), named("b", lit("1")), named("c", b.clone())]), obj(vec![named("a", lit("1")), named("b", a.clone()), named("c", lit("2")), named("d", b.clone())]),
+        obj(vec![named("a", a.clone()), named("b", lit("1")), named("c", lit("'s'")), named("d", b.clone()), named("e", lit("null"))]), obj(vec![named("a", lit("1")), named("b", lit("2")), named("c", a.clone())]),
+        obj(vec![named("a", a.clone()), named("b", lit("1")), Field::Spread(o.clone()), named("c", lit("2")), named("d", b.clone())]), obj(vec![named("a", a.clone()), named("b", arr(vec![])), named("c", b.clone())]),
+        obj(vec![named("a", a.clone()), named("b", obj(vec![named("k", lit("1"))])), named("c", b.clone())]), arr(vec![v(a.clone()), v(lit("1")), v(b.clone())]), arr(vec![v(lit("1")), v(a.clone()), v(lit("2")), v(lit("3")), v(b.clone())]),
+        arr(vec![v(a.clone()), v(lit("1")), sp(l.clone()), v(lit("2")), v(b.clone())]),
     ];
     for e in trees {
         let mut vars = vec![];
